@@ -3,6 +3,7 @@ package ircserver
 import (
 	"encoding/hex"
 	"regexp"
+	"sort"
 	"time"
 
 	"github.com/golang/protobuf/proto"
@@ -147,6 +148,13 @@ func (i *IRCServer) Marshal(lastIncludedIndex uint64) ([]byte, error) {
 			Password: service.Password,
 		})
 	}
+	whitelistedOrigins := make([]string, 0, len(i.Config.WhitelistedOrigins))
+	for origin, whitelisted := range i.Config.WhitelistedOrigins {
+		if whitelisted {
+			whitelistedOrigins = append(whitelistedOrigins, origin)
+		}
+	}
+	sort.Strings(whitelistedOrigins)
 	config := &pb.Snapshot_Config{
 		Revision: i.Config.Revision,
 		Irc: &pb.Snapshot_Config_IRC{
@@ -162,6 +170,7 @@ func (i *IRCServer) Marshal(lastIncludedIndex uint64) ([]byte, error) {
 		MaxSessions:             i.Config.MaxSessions,
 		MaxChannels:             i.Config.MaxChannels,
 		Banned:                  i.Config.Banned,
+		WhitelistedOrigins:      whitelistedOrigins,
 	}
 	snapshot := pb.Snapshot{
 		Sessions:          sessions,
@@ -365,6 +374,12 @@ func (i *IRCServer) unmarshalConfig(snapshot *pb.Snapshot) error {
 	}
 	if i.Config.Banned == nil {
 		i.Config.Banned = make(map[string]string)
+	}
+	if len(snapshot.Config.WhitelistedOrigins) > 0 {
+		i.Config.WhitelistedOrigins = make(map[string]bool, len(snapshot.Config.WhitelistedOrigins))
+		for _, origin := range snapshot.Config.WhitelistedOrigins {
+			i.Config.WhitelistedOrigins[origin] = true
+		}
 	}
 	return nil
 }
